@@ -1238,3 +1238,74 @@ def run(ctx: C.Ctx):
     })
     ctx.assumptions += ["the mock core's event order is the device's order of effects", "scripted digitalRead levels stand for the button history",
                         "C int does not overflow on the generated values (|v| < 1000)"]
+
+
+# ----------------------------------------------------------------------------------------------
+# ./check replay <file>: re-run the recorded script on the real transpiler, the firmware and CPython
+# ----------------------------------------------------------------------------------------------
+
+def _generic_obs(events, python):
+    """per phase: Serial lines, sleeps and Core analog writes (what a user can tell apart)"""
+    _pre, setup, loops = fw.split_phases(events)
+
+    def conv(evs):
+        out = []
+        for e in evs:
+            q = e.split(" ")
+            if q[0] == "S":
+                text = e[2:].split("\t")[0] if python else e[2:]
+                if not (re.fullmatch(r"-?\d+(\.\d+)?", text) and abs(float(text)) >= VAL_LIMIT / 1000 and "." in text):
+                    out.append("S " + text)
+            elif q[0] == "D":
+                out.append(e)
+            elif q[0] == "AW" and int(q[1]) == CORE_PIN:
+                out.append(e)
+        return out
+    return [conv(setup)] + [conv(l) for l in loops]
+
+
+def replay(data):
+    case = data.get("case") or {}
+    src = case.get("src") if isinstance(case, dict) else (case if isinstance(case, str) else None)
+    if not src:
+        print("replay: no script in this file (proof failure: see the fields above)")
+        return 0
+    key = data.get("key", "")
+    inp = case.get("input", "") if isinstance(case, dict) else ""
+    t = fw.transpile_many([src])[0]
+    print("parse()/emit():", "accepted" if t["ok"] else f"{t['exc']}: {t.get('msg', '')[:200]}")
+    if key == "break-accepted":
+        print("REPRODUCED [break-accepted]" if t["ok"] else "replay: the script is rejected now")
+        return 1 if t["ok"] else 0
+    if not t["ok"]:
+        print("replay: nothing to run")
+        return 0
+    o = fw.run_sketches([{"cpp": t["cpp"], "input": inp, "loops": NMAX}])[0]
+    if not o["compiled"] or o["rc"] != 0:
+        print("firmware did not compile / run:", (o["compile_log"] or o["stderr"] or str(o["rc"]))[-800:])
+        return 1
+    dummy = {"marks": {}, "lcd_anim_rows": {}, "lcd_order": [], "devs": {}}
+    setup_a, passes_a = abstract_trace(o["events"], dummy, set())
+    whole = setup_a + [e for p in passes_a for e in p]
+    ok_cbu, bad_cbu = py_cbu(whole)
+    ok_one, bad_one = py_one_mode(whole)
+    print("configured-before-use:", "ok" if ok_cbu else f"FAILS at {bad_cbu}")
+    print("one mode per pin:", "ok" if ok_one else f"FAILS at {bad_one}")
+    po = fw.pyrun_many([{"src": src, "input": inp, "loops": NMAX}])[0]
+    f_obs = _generic_obs(o["events"], False)
+    rc = 0 if (ok_cbu and ok_one) else 1
+    if po["exc"] is None:
+        p_obs = _generic_obs(po["events"], True)
+        for k, (a, b_) in enumerate(zip(p_obs + [[]] * 4, f_obs)):
+            tag = "setup" if k == 0 else f"pass {k - 1}"
+            same = a == b_
+            print(f"{tag}: {'same' if same else 'DIFFERENT'}\n   cpython : {a}\n   firmware: {b_}")
+            if not same:
+                rc = 1
+    else:
+        print("CPython raised:", po["exc"])
+    print("firmware events of setup() and the first pass:")
+    for e in o["events"][:80]:
+        print("   ", e)
+    print("REPRODUCED" if rc else "replay: no difference on this case now")
+    return rc
